@@ -55,7 +55,7 @@ theorem validRune_lt (r : Nat) (h : validRune r = true) : r < 4294967296 := by
 
 /-- one escaped character is decoded to that character -/
 theorem decode_escU (f : Nat) (r : Rune) (rest : List Nat) (d : Dec) (hv : validRune r = true) :
-    decode (f + 1) (escU r ++ rest) d = decode f rest { d with chars := d.chars ++ [(r, true)] } := by
+    decode (f + 1) (escU r ++ rest) d = decode f rest { d with chars := d.chars ++ [(r, true)], pend := false } := by
   have hd : ∀ k, hexChar (r / k % 16) < 128 := fun k => hexChar_ascii _ (Nat.mod_lt _ (by decide))
   have hd0 : hexChar (r % 16) < 128 := hexChar_ascii _ (Nat.mod_lt _ (by decide))
   have hun : unquote (85 :: hex8 r) = r := by
@@ -75,7 +75,7 @@ theorem decode_escU (f : Nat) (r : Rune) (rest : List Nat) (d : Dec) (hv : valid
 
 /-- a plain dash is decoded to a dash -/
 theorem decode_dash (f : Nat) (rest : List Nat) (d : Dec) :
-    decode (f + 1) (45 :: rest) d = decode f rest { d with chars := d.chars ++ [(45, false)] } := by
+    decode (f + 1) (45 :: rest) d = decode f rest { d with chars := d.chars ++ [(45, d.pend)], pend := false } := by
   simp only [decode]
   rw [readRune_ascii 45 _ (by decide)]
   simp
@@ -96,7 +96,8 @@ theorem spellChars_length (cs : List Rune) : (spellChars cs).length = 10 * cs.le
   | cons c cs ih => simp [spellChars, escU, hex8, ih]; omega
 
 theorem decode_chars (cs : List Rune) (hv : ∀ c ∈ cs, validRune c = true) (f : Nat) (rest : List Nat) (d : Dec) :
-    decode (f + cs.length) (spellChars cs ++ rest) d = decode f rest { d with chars := d.chars ++ markChars cs } := by
+    decode (f + cs.length) (spellChars cs ++ rest) d =
+      decode f rest { d with chars := d.chars ++ markChars cs, pend := d.pend && cs.isEmpty } := by
   induction cs generalizing d with
   | nil => simp [spellChars, markChars]
   | cons c cs ih =>
@@ -107,7 +108,8 @@ theorem decode_chars (cs : List Rune) (hv : ∀ c ∈ cs, validRune c = true) (f
 
 theorem decode_ranges (rs : List (Rune × Rune)) (hv : ∀ p ∈ rs, validRune p.1 = true ∧ validRune p.2 = true)
     (f : Nat) (rest : List Nat) (d : Dec) :
-    decode (f + 3 * rs.length) (spellRanges rs ++ rest) d = decode f rest { d with chars := d.chars ++ printRanges rs } := by
+    decode (f + 3 * rs.length) (spellRanges rs ++ rest) d =
+      decode f rest { d with chars := d.chars ++ printRanges rs, pend := d.pend && rs.isEmpty } := by
   induction rs generalizing d with
   | nil => simp [spellRanges, printRanges]
   | cons p rs ih =>
@@ -153,7 +155,8 @@ theorem readName_ok (n : List Rune) (hn : NameOK n) (rest : List Nat) (acc : Lis
       simp
 
 theorem decode_name (f : Nat) (n : List Rune) (hn : NameOK n) (rest : List Nat) (d : Dec) :
-    decode (f + 1) (spellName n ++ rest) d = decode f rest { d with classes := d.classes ++ [n] } := by
+    decode (f + 1) (spellName n ++ rest) d =
+      decode f rest { chars := markLast d.chars, classes := d.classes ++ [n], pend := true } := by
   simp only [spellName, List.cons_append, List.append_assoc, decode]
   rw [readRune_ascii 92 _ (by decide)]
   simp only [ne_eq, not_true_eq_false, if_false]
@@ -165,14 +168,16 @@ theorem decode_name (f : Nat) (n : List Rune) (hn : NameOK n) (rest : List Nat) 
   rw [readName_ok n hn rest [] (n ++ 125 :: rest).length (by simp)]
   simp
 
-theorem decode_names (ns : List (List Rune)) (hn : ∀ n ∈ ns, NameOK n) (f : Nat) (rest : List Nat) (d : Dec) :
-    decode (f + ns.length) (spellNames ns ++ rest) d = decode f rest { d with classes := d.classes ++ ns } := by
+theorem decode_names (ns : List (List Rune)) (hn : ∀ n ∈ ns, NameOK n) (f : Nat) (rest : List Nat) (d : Dec)
+    (hd : d.chars = []) :
+    decode (f + ns.length) (spellNames ns ++ rest) d =
+      decode f rest { chars := [], classes := d.classes ++ ns, pend := d.pend || !ns.isEmpty } := by
   induction ns generalizing d with
-  | nil => simp [spellNames]
+  | nil => cases d; simp_all [spellNames]
   | cons n ns ih =>
     simp only [spellNames, List.length_cons, List.append_assoc]
     rw [show f + (ns.length + 1) = (f + ns.length) + 1 by omega, decode_name _ _ (hn n List.mem_cons_self)]
-    rw [ih (fun x hx => hn x (List.mem_cons_of_mem _ hx))]
+    rw [ih (fun x hx => hn x (List.mem_cons_of_mem _ hx)) _ (by simp [hd, markLast])]
     simp
 
 theorem decode_nil (f : Nat) (d : Dec) : decode f [] d = d := by
@@ -183,9 +188,10 @@ theorem decode_body (ns : List (List Rune)) (cs : List Rune) (rs : List (Rune ×
     (hn : ∀ n ∈ ns, NameOK n) (hc : ∀ c ∈ cs, validRune c = true)
     (hr : ∀ p ∈ rs, validRune p.1 = true ∧ validRune p.2 = true) (extra : Nat) :
     decode (extra + 3 * rs.length + cs.length + ns.length) (spellNames ns ++ (spellChars cs ++ spellRanges rs))
-      { chars := [], classes := [] } = { chars := markChars cs ++ printRanges rs, classes := ns } := by
-  rw [decode_names ns hn, decode_chars cs hc]
-  have := decode_ranges rs hr extra [] { chars := [] ++ markChars cs, classes := [] ++ ns }
+      { chars := [], classes := [] } =
+      { chars := markChars cs ++ printRanges rs, classes := ns, pend := (!ns.isEmpty && cs.isEmpty) && rs.isEmpty } := by
+  rw [decode_names ns hn _ _ _ rfl, decode_chars cs hc]
+  have := fun d => decode_ranges rs hr extra [] d
   simp only [List.append_nil] at this
   rw [this, decode_nil]
   simp
@@ -286,7 +292,7 @@ theorem parse_spell (ic inv : Bool) (ns : List (List Rune)) (cs : List Rune) (rs
     simp [flat]
   | cons x rest =>
     have hbody : decode body.length body { chars := [], classes := [] } =
-        { chars := markChars cs ++ printRanges rs, classes := ns } := by
+        { chars := markChars cs ++ printRanges rs, classes := ns, pend := (!ns.isEmpty && cs.isEmpty) && rs.isEmpty } := by
       have hl := body_length ns cs rs
       rw [hb] at hl
       obtain ⟨extra, he⟩ : ∃ extra, body.length = extra + 3 * rs.length + cs.length + ns.length :=
